@@ -6,6 +6,7 @@ import RactorModel.Lemmas.FactoryActors
 import RactorModel.Lemmas.FactoryNoPanic
 import RactorModel.Lemmas.FactoryNoBacklog
 import RactorModel.Lemmas.FactoryKeyOrder
+import RactorModel.Lemmas.FactoryStartOrder
 
 /-!
 # C14 — Factory routing keeps its promises about where a job runs
@@ -515,6 +516,29 @@ theorem kp_next_job_is_oldest_of_its_key (c : CaseCfg) (hr : c.cfg.router = .kp)
       rw [hmq] at hpw
       exact Nat.le_of_lt ((List.pairwise_cons.mp hpw).1 y hy' hk.symm)
 
+/-- (jobs of one key are HANDLED in submission order — `_partial`: finding F4 excluded by `noStaleRun`) With
+key-persistent routing, for every configuration (both queue types, discard limits, rate limiter, any pool size incl.
+0) and EVERY sequence of operations in which the submitter numbers its jobs in increasing order (`idsAscending`) and no
+worker is killed while a completion report of its slot is unprocessed — dispatches with any keys/TTLs, completions,
+failures, kills, resizes incl. growth from an empty pool, settings, drain, a factory held busy —, as long as the factory
+has not entered `post_stop`: for every key `k`, the `start` events of the jobs of key `k` appear in the history in
+increasing order of their ids, i.e. in submission order. (`startedIds log k` = the ids of the `start _ id k` events in
+log order.) Proof (`Lemmas/FactoryStartOrder.lean`, ~2000 lines): the worker pipeline `wq p e` = mailbox of the slot's
+actor ++ the slot's queue joins the order invariant of `key_order_pipeline`; every started id of key `k` stays below
+every waiting id of key `k`; a start takes the head of a pipeline, and by affinity (through the coupling invariant) no
+other pipeline holds the key; ids not yet handed out are nowhere (`C13.conservation`). -/
+theorem kp_jobs_start_in_submission_order_partial (c : CaseCfg) (hr : c.cfg.router = .kp) (steps : List Step)
+    (hasc : idsAscending 0 steps = true) (hns : noStaleRun (init c) steps = true)
+    (hst : ((init c).runSteps steps).stopped = false) (k : Nat) :
+    (startedIds ((init c).runSteps steps).env.log k).Pairwise (· < ·) :=
+  starts_in_order c hr steps hasc hns hst k
+
+/-- non-vacuity on the F3 witness (pool grown from 0 with a backlog, then 3 completions): the hypotheses hold and the
+jobs of key 7 started in the order 1, 2, 3 -/
+example : idsAscending 0 f3Steps = true ∧ noStaleRun (init f3Case) f3Steps = true ∧
+    ((init f3Case).runSteps f3Steps).stopped = false ∧
+    startedIds ((init f3Case).runSteps f3Steps).env.log 7 = [1, 2, 3] := by decide +kernel
+
 /-- non-vacuity: the F3 witness numbers its jobs 1, 2, 3 and leaves jobs 2 and 3 (key 7) in worker 0's queue, in order -/
 example : ((init f3Case).runSteps (f3Steps.take 5)).pool.map (fun p => p.mq.map (·.id)) = [[2, 3]] := by decide +kernel
 example : idsIncreasing f3Steps := by
@@ -579,5 +603,6 @@ end C14
 #print axioms C14.worker_router_always_has_target
 #print axioms C14.key_order_pipeline
 #print axioms C14.kp_next_job_is_oldest_of_its_key
+#print axioms C14.kp_jobs_start_in_submission_order_partial
 #print axioms C14.busy_worker_starts_nothing
 #print axioms C14.cast_to_busy_queues
